@@ -173,6 +173,45 @@ pub open spec fn decl_bound(c: Context, s: synast::Stmt) -> bool {
     s is ClassicalDeclarationStatement && s->ClassicalDeclarationStatement_0.sp_name() is Some
         ==> c.in_current_scope(s->ClassicalDeclarationStatement_0.sp_name()->Some_0.sp_string())
 }
+/// C06: every expression construct maps to the graph construct of the same meaning (literal classes included: the sign of a
+/// negated literal is folded into the literal, an imaginary literal stays imaginary)
+pub open spec fn expr_kind_ok(e: synast::Expr, r: asg::TExpr) -> bool {
+    match e {
+        synast::Expr::BinExpr(_) => r.expression is BinaryExpr,
+        synast::Expr::Identifier(_) => r.expression is Identifier,
+        synast::Expr::HardwareQubit(_) => r.expression is HardwareQubit,
+        synast::Expr::RangeExpr(_) => r.expression is RangeExpression,
+        synast::Expr::IndexExpr(_) => r.expression is IndexExpression,
+        synast::Expr::IndexedIdentifier(_) => r.expression is IndexedIdentifier,
+        synast::Expr::MeasureExpression(_) => r.expression is MeasureExpression,
+        synast::Expr::ReturnExpr(_) => r.expression is Return,
+        synast::Expr::CastExpression(_) => r.expression is Cast,
+        synast::Expr::CallExpr(_) => r.expression is SubroutineCall,
+        synast::Expr::TimingLiteral(t) => r.expression is Literal && timing_class_ok(t, r.expression->Literal_0),
+        synast::Expr::PrefixExpr(p) => match (p.sp_op_kind(), p.sp_expr()) {
+            (Some(synast::UnaryOp::Neg), Some(synast::Expr::Literal(l))) => r.expression is Literal && match l.sp_kind() {
+                synast::LiteralKind::IntNumber(_) => r.expression->Literal_0 is Int && !r.expression->Literal_0->Int_0.sign,
+                synast::LiteralKind::FloatNumber(_) => r.expression->Literal_0 is Float,
+                _ => true,
+            },
+            (Some(synast::UnaryOp::Neg), Some(synast::Expr::TimingLiteral(t))) => r.expression is Literal && timing_class_ok(t, r.expression->Literal_0)
+                && (r.expression->Literal_0 is ImaginaryInt ==> !r.expression->Literal_0->ImaginaryInt_0.sign),
+            (Some(synast::UnaryOp::Neg), Some(_)) => r.expression is UnaryExpr && r.expression->UnaryExpr_0.op is Minus,
+            _ => true,
+        },
+        _ => true,
+    }
+}
+/// the literal class of a timing / imaginary literal: imaginary iff the unit is `im`, integer iff the number is written as one
+pub open spec fn timing_class_ok(t: synast::TimingLiteral, g: asg::Literal) -> bool {
+    t.sp_time_unit() is Some && t.sp_literal() is Some ==> match (t.sp_time_unit()->Some_0, t.sp_literal()->Some_0.sp_kind()) {
+        (synast::TimeUnit::Imaginary, synast::LiteralKind::IntNumber(_)) => g is ImaginaryInt,
+        (synast::TimeUnit::Imaginary, synast::LiteralKind::FloatNumber(_)) => g is ImaginaryFloat,
+        (_, synast::LiteralKind::IntNumber(_)) => g is TimingIntLiteral,
+        (_, synast::LiteralKind::FloatNumber(_)) => g is TimingFloatLiteral,
+        _ => true,
+    }
+}
 /// C06: gate modifiers keep their kind and their order
 pub open spec fn mod_same(m: synast::Modifier, g: asg::GateModifier) -> bool {
     match m {
